@@ -89,7 +89,6 @@ package netconf
 // bHead: ghost snapshot of the buffer at the top of the iteration. msgID: the id the loop extracts from a message.
 //@ ghost bHead []byte
 //@ chanmode Driver.errs count
-//@ chanmode Driver.done mailbox
 //@ spec msgID(b []byte) int := len(reSub(netconfPatternsInstance.messageID, b)) != 2 ? 0 : (atoiOK(reSub(netconfPatternsInstance.messageID, b)[1]) ? atoiVal(reSub(netconfPatternsInstance.messageID, b)[1]) : 0)
 //@ func (*Driver).storeSubscriptionMessage [C08]
 //@   requires d.subscriptions != nil
@@ -102,6 +101,6 @@ package netconf
 //@   modifies d.Channel.Q.queue, d.Channel.Q.depth, chan(d.Channel.Q.depthChan), chan(d.errs), chan(d.done), chan(d.Channel.Errs), keys(d.messages), keys(d.subscriptions), bHead, rd, alloc()
 //@   loop 1 invariant RI(d.Channel.Q)
 //@   loop 1 set bHead = b
-//@   at call Sleep#1 assert #unfinished-input-is-kept !reMatch(d.Channel.PromptPattern, bHead ++ rb) ==> b == bHead ++ rb
-//@   at call Sleep#1 assert #a-complete-message-is-filed-under-its-id-and-the-buffer-restarts reMatch(d.Channel.PromptPattern, bHead ++ rb) && !contains(bHead ++ rb, "</rpc>") ==> len(b) == 0 && (msgID(bHead ++ rb) != 0 ==> has(d.messages, msgID(bHead ++ rb)) && get(d.messages, msgID(bHead ++ rb)) == bHead ++ rb)
-//@   at call Sleep#1 assert #after-an-echo-only-the-part-behind-the-first-delimiter-is-kept reMatch(d.Channel.PromptPattern, bHead ++ rb) && contains(bHead ++ rb, "</rpc>") ==> b == reSplit(d.Channel.PromptPattern, bHead ++ rb, 2)[1]
+//@   at call Sleep#* assert #unfinished-input-is-kept !reMatch(d.Channel.PromptPattern, bHead ++ rb) ==> b == bHead ++ rb
+//@   at call Sleep#* assert #a-complete-message-is-filed-under-its-id-and-the-buffer-restarts reMatch(d.Channel.PromptPattern, bHead ++ rb) && !contains(bHead ++ rb, "</rpc>") ==> len(b) == 0 && (msgID(bHead ++ rb) != 0 ==> has(d.messages, msgID(bHead ++ rb)) && get(d.messages, msgID(bHead ++ rb)) == bHead ++ rb)
+//@   at call Sleep#* assert #after-an-echo-only-the-part-behind-the-first-delimiter-is-kept reMatch(d.Channel.PromptPattern, bHead ++ rb) && contains(bHead ++ rb, "</rpc>") ==> b == reSplit(d.Channel.PromptPattern, bHead ++ rb, 2)[1]
